@@ -489,6 +489,14 @@ func Mutate(t *rapid.T, m *Mined, inst *Instance, label string) string {
 					switch kind {
 					case token.INT:
 						add(tag+":int", func() { fv.SetString(val + "7") })
+						// the same number written another way: another token
+						if n, err := strconv.ParseInt(val, 10, 64); err == nil && val == strconv.FormatInt(n, 10) {
+							kf := v.FieldByName("Kind")
+							add(tag+":same-number-as-float", func() { fv.SetString(val + ".0"); kf.Set(reflect.ValueOf(token.FLOAT)) })
+							if n > 9 {
+								add(tag+":same-number-in-hex", func() { fv.SetString(fmt.Sprintf("0x%x", n)) })
+							}
+						}
 					case token.STRING:
 						if strings.HasPrefix(val, "\"") {
 							add(tag+":string", func() { fv.SetString("\"z" + val[1:]) })
